@@ -241,3 +241,51 @@ func VerifC19_TransferConfig() {
 	}
 	verif.Cover("end")
 }
+
+// C19, lemma 2: load-time defaulting survives the dump. A cluster (listener) as the
+// loader leaves it - ParseClusterConfig / ParseListenerConfig applied to an arbitrary
+// generated value - is dumped, loaded again and passed through the same defaulting:
+// the result equals the configuration the proxy was running with, field by field. A
+// default that is applied on load but written out differently (or a clamp that is not
+// a fixpoint) would make a restart from the persisted file differ from the running proxy.
+func VerifC19_LoadDefaults() {
+	zzStubResolve()
+	h := &zzHv{flip: -1, mode: verif.Choose("shape", 2)}
+	if verif.Choose("kind", 2) == 0 {
+		c := zzHv_v2_Cluster(h)
+		c.Name = "c"
+		running, _ := ParseClusterConfig([]v2.Cluster{c})
+		verif.Assert(len(running) == 1, "ParseClusterConfig lost the cluster")
+		if len(running) != 1 {
+			return
+		}
+		b, err := json.Marshal(running[0])
+		verif.Assert(err == nil, "the dump fails")
+		var loaded v2.Cluster
+		if err != nil || json.Unmarshal(b, &loaded) != nil {
+			verif.Assert(err != nil, "the dump does not load")
+			return
+		}
+		again, _ := ParseClusterConfig([]v2.Cluster{loaded})
+		verif.Assert(len(again) == 1, "ParseClusterConfig lost the reloaded cluster")
+		if len(again) == 1 {
+			zzEq_v2_Cluster(h, running[0], again[0], "cluster after restart")
+		}
+		verif.Cover("cluster")
+	} else {
+		l := zzMkListener(h, "l")
+		l.Network = []string{"", "tcp", "TCP"}[verif.Choose("network", 3)]
+		running := ParseListenerConfig(&l, nil, nil)
+		b, err := json.Marshal(*running)
+		verif.Assert(err == nil, "the dump fails")
+		var loaded v2.Listener
+		if err != nil || json.Unmarshal(b, &loaded) != nil {
+			verif.Assert(err != nil, "the dump does not load")
+			return
+		}
+		again := ParseListenerConfig(&loaded, nil, nil)
+		zzEq_v2_Listener(h, *running, *again, "listener after restart")
+		verif.Cover("listener")
+	}
+	verif.Cover("end")
+}
